@@ -418,20 +418,30 @@ def sanityCheck (w : World) : WRes Unit :=
       if text b == sanityText then (.ok (), { w with ch := ch })
       else (.error .unclean, { w with ch := ch })
 
+/-- `self.ch._write_blacklist = [...]` -/
+def setBlacklist (bl : Bytes) (w : World) : World := { w with ch := { w.ch with blacklist := bl } }
+
+/-- `self.ch.prompt = TBOT_PROMPT` -/
+def setPrompt (p : Bytes) (w : World) : World := { w with ch := { w.ch with prompt := some (.lit p) } }
+
+/-- `self.ch.read_until_prompt()` -/
+def rupW (w : World) : WRes (Bytes × Bytes) :=
+  match readUntilPrompt none none w.ch with
+  | (.error e, ch) => (.error (.chan e), { w with ch := ch })
+  | (.ok b, ch) => (.ok b, { w with ch := ch })
+
 /-- `Bash._init_shell` / `Ash._init_shell` (the part before `yield`) -/
 def initShell (ash : Bool) (cols rows : Nat) (w : World) : WRes Unit :=
   match waitForShell 8 204 w with
   | (.error e, w) => (.error e, w)
   | (.ok _, w) =>
-    let w := { w with ch := { w.ch with blacklist := blacklist ash } }
-    match sendlineR (ps1Line (prompt ash)) false ([], 0) w with
+    match sendlineR (ps1Line (prompt ash)) false ([], 0) (setBlacklist (blacklist ash) w) with
     | (.error e, w) => (.error (.chan e), w)
     | (.ok _, w) =>
-      let w := { w with ch := { w.ch with prompt := some (.lit (prompt ash)) } }
-      match readUntilPrompt none none w.ch with
-      | (.error e, ch) => (.error (.chan e), { w with ch := ch })
-      | (.ok _, ch) =>
-        match plainCmds (initLines ash cols rows) { w with ch := ch } with
+      match rupW (setPrompt (prompt ash) w) with
+      | (.error e, w) => (.error e, w)
+      | (.ok _, w) =>
+        match plainCmds (initLines ash cols rows) w with
         | (.error e, w) => (.error e, w)
         | (.ok _, w) => sanityCheck w
 
